@@ -31,8 +31,15 @@ WriteSay(obj, chunks) ==
   IF HasLegacy(obj) THEN TRUE ELSE
   LET exp == Write(obj)  ds == Diffs(exp, chunks) IN SayAll("write:", IF Len(ds) > 6 THEN SubSeq(ds, 1, 6) ELSE ds, exp, chunks)
 
+StructSay(chunks) == LET b == StructBad(chunks) IN IF b = {} THEN TRUE ELSE Say("structure:" \o (CHOOSE x \in b : TRUE), {}, b)
 StepEv(e) ==
-  CASE e.op = "save" -> WriteSay(e.obj, e.chunks) /\ ok' = (ok /\ WriteOK(e.obj, e.chunks))
+  CASE e.op = "save" -> /\ WriteSay(e.obj, e.chunks) /\ StructSay(e.chunks)
+                        /\ ok' = (ok /\ WriteOK(e.obj, e.chunks) /\ StructBad(e.chunks) = {})
+    [] e.op = "emptysynth" ->    \* C02: a synth without a module refuses to serialize, nothing is written
+       (LET g == e.outcome = "EmptySynthError" /\ e.written = 0 IN
+        Check(g, "empty-synth-not-refused", "EmptySynthError", <<e.outcome, e.written>>) /\ ok' = (ok /\ g))
+    [] e.op = "encode" ->        \* the spec as reference encoder: emit Write(obj) for the harness to turn into bytes
+       PrintT(ToJson([v |-> "ENCODED", id |-> Traces[tid].id, l |-> l, chunks |-> Write(e.obj)])) /\ UNCHANGED ok
     [] e.op = "load" ->          \* C04: the loaded object is what the chunks denote
        (IF e.outcome # "ok" THEN Say("load-raised", "ok", e.outcome) /\ ok' = FALSE
         ELSE LET d == DiffObj(Read(e.chunks), e.obj) IN DiffSay("read", d) /\ ok' = (ok /\ d = <<>>))
@@ -40,19 +47,20 @@ StepEv(e) ==
        (IF e.outcome # "ok" THEN Say("written-file-not-loadable", "ok", e.outcome) /\ ok' = FALSE
         ELSE LET d1 == DiffObj(Norm(e.orig), Norm(e.back))
                  d2 == DiffObj(Read(e.chunks), e.back)
-                 w == WriteOK(e.orig, e.chunks) IN
-             /\ DiffSay("roundtrip", d1) /\ DiffSay("read", d2) /\ WriteSay(e.orig, e.chunks)
+                 w == ~e.w \/ (WriteOK(e.orig, e.chunks) /\ StructBad(e.chunks) = {}) IN
+             /\ DiffSay("roundtrip", d1) /\ DiffSay("read", d2)
+             /\ (IF e.w THEN WriteSay(e.orig, e.chunks) /\ StructSay(e.chunks) ELSE TRUE)
              /\ ok' = (ok /\ d1 = <<>> /\ d2 = <<>> /\ w))
     [] e.op = "resave" ->        \* C05: X -> load -> Y -> load -> Y2, Y3 ... ; e.first = Y, e.again = <<Y2, Y3, ...>>,
                                  \* e.obj1 / e.obj2 the objects loaded from X and from Y, e.pure: snapshots before/after saving equal
        (LET badi == {i \in 1..Len(e.again) : e.again[i] # e.first}
             d == DiffObj(Norm(e.obj1), Norm(e.obj2))
-            w == WriteOK(e.obj2, e.first) IN
+            w == ~e.w \/ WriteOK(e.obj2, e.first) IN
         /\ Check(badi = {}, "resave-drift", "identical bytes", IF badi = {} THEN <<>> ELSE
                   LET i == CHOOSE i \in badi : TRUE  p == FirstDiff(e.first, e.again[i]) IN <<i, Ctx(e.first, p), At(e.first, p), At(e.again[i], p)>>)
         /\ DiffSay("reload-differs", d)
         /\ Check(e.pure, "saving-changed-the-object", "unchanged", "changed")
-        /\ WriteSay(e.obj2, e.first)
+        /\ (IF e.w THEN WriteSay(e.obj2, e.first) ELSE TRUE)
         /\ ok' = (ok /\ badi = {} /\ d = <<>> /\ e.pure /\ w))
     [] e.op = "edit" ->          \* C06: load, change one attribute, save, load: the change and only the change
        (IF e.outcome # "ok" THEN Say("edited-file-not-loadable", "ok", e.outcome) /\ ok' = FALSE
